@@ -813,3 +813,90 @@ def replay(payload):
         print("VIOL %s %s op#%s %s -> %s" % (v["prop"], v["pred"], v["i"], json.dumps(v["op"])[:200], json.dumps(v["res"])[:120]))
     print("replay: %d violation event(s) of %s reproduced" % (len(hits), prop))
     return 1 if hits else 0
+
+
+# --------------------------------------------------------------------------- self-test of the binding
+def selftest():
+    """(a) the original defects are visible in the *model* (Variant = "orig" makes TLC print property violations);
+    (b) corrupting one logged field of a recorded real trace makes the trace specification report it."""
+    ok = True
+    # (a) model
+    for (name, module, cfgtext, expect) in [
+        ("self_buf_orig", "MCBuffer",
+         "SPECIFICATION Spec\nVIEW View\nCONSTANTS\n  Variant = \"orig\"\n  Pres = {0, 2, 3}\n  Ns = {0, 1, 3, 5}\n  Aligns = {4, 8}\n"
+         "  Recycled = TRUE\n  NLEs = {TRUE}\n  MaxLen = 2\n  Emit = FALSE\nCHECK_DEADLOCK FALSE\n",
+         {"GetDecodes", "RoundTrip", "PointerAligned", "OutsideUntouched", "LenWithinCapacity"}),
+        ("self_rd_orig", "MCReaders",
+         "SPECIFICATION Spec\nCONSTANTS\n  Variant = \"orig\"\n  MaxUsize = 255\n  Cap = 40\n  DataOffset = 1\n"
+         "  CheckedSet = {TRUE, FALSE}\nCHECK_DEADLOCK FALSE\n",
+         {"NoPanic", "OkOnlyBelowAllocated", "NeverTouchesAtOrAboveAllocated"}),
+    ]:
+        wd = os.path.join(rv.WORK, "mc", "small-" + name)
+        shutil.rmtree(wd, ignore_errors=True)
+        rv.ensure_dir(wd)
+        with open(os.path.join(wd, name + ".cfg"), "w") as f:
+            f.write(cfgtext)
+        rc, out = rv.run_tlc(wd, module, name + ".cfg", workers=4, deque=False, timeout=600, heap="4g")
+        seen = set()
+        for j in _parse_tla_json_lines(out, "modelviol"):
+            for pp in j["modelviol"]:
+                seen.add(pp[1])
+        good = expect <= seen
+        ok = ok and good
+        print("selftest model %s Variant=orig: predicates violated in the model: %s -> %s" % (
+            module, sorted(seen), "ok" if good else "MISSING %s" % sorted(expect - seen)))
+    # (b) field corruption on real traces (quick drivers, dev build)
+    cases = {
+        "C14": [("put", lambda e: e["op"]["k"] == "put" and e["res"]["k"] == "ok" and e["len"] > 0,
+                 lambda e: e.__setitem__("len", e["len"] - 1), "AdvancesLen"),
+                ("get", lambda e: e["op"]["k"] == "get" and e["res"]["k"] == "ok" and len(e["res"]["v"]) > 1 and e["res"]["v"][0] != e["res"]["v"][-1],
+                 lambda e: e["res"].__setitem__("v", e["res"]["v"][::-1]), "GetDecodes"),
+                ("out", lambda e: e["op"]["k"] == "putal" and e["res"]["k"] == "ok",
+                 lambda e: e["out"][-1].__setitem__(2, 77), "OutsideUntouched")],
+        "C15": [("rd", lambda e: e["op"]["k"] == "rd" and e["res"]["k"] == "ok" and len(e["win"]) > 1 and e["win"][0] != e["win"][-1],
+                 lambda e: e["win"].reverse(), "ValueDecoded"),
+                ("oob", lambda e: e["op"]["k"] == "rd" and e["res"]["k"] == "oob",
+                 lambda e: e.__setitem__("alloc", e["cap"] + 64), "OutOfBoundsOnlyWhenNotBelowAllocated"),
+                ("lens", lambda e: e["op"]["k"] == "lens", lambda e: e["res"].__setitem__("data", e["res"]["data"] + 1), "DataLen")],
+        "C19": [("digest", lambda e: e["op"]["k"] == "cksum" and len(e.get("chunks", [])) > 1,
+                 lambda e: e["res"].__setitem__("crc", "0" + e["res"]["crc"][1:] if e["res"]["crc"][0] != "0" else "1" + e["res"]["crc"][1:]),
+                 "Crc32EqualsOneShot"),
+                ("chunk", lambda e: e["op"]["k"] == "cksum" and len(e.get("chunks", [])) > 1,
+                 lambda e: e["chunks"][1].__setitem__(0, e["chunks"][1][0] + 1), "ChunksTileAllocatedAfterReserved")],
+    }
+    for prop, cs_ in cases.items():
+        e_ = ENGINE[prop]
+        mc = []
+        if prop == "C14":
+            alld = c14_drivers("quick", 1, mc)
+            drivers = [d for d in alld if d["id"].split(":")[0] == "align"][:8] + [d for d in alld if d["id"].split(":")[0] == "intfull"][:1]
+        elif prop == "C15":
+            drivers = [d for d in c15_drivers("quick", 1) if d["id"].startswith("sweep:1:")][:4]
+        else:
+            drivers = c19_drivers("quick", 1)[:2]
+        tfile, _ = run_harness(build_small("dev"), e_["sub"], drivers, "selftest-" + prop)
+        with open(tfile) as f:
+            lines = f.readlines()
+        base = rv.validate_trace(tfile, e_["module"], e_["cfg"], "selftest-%s-base" % prop, parts=2)
+        print("selftest %s: recorded trace of %d events accepted (%d VIOL)" % (prop, base["events"], len(base["viol"])))
+        ok = ok and not base["viol"]
+        for (what, sel, mut, pred) in cs_:
+            idx = next((i for i, ln in enumerate(lines) if '"ev":"op"' in ln and sel(json.loads(ln))), None)
+            if idx is None:
+                print("selftest %s/%s: no event to corrupt" % (prop, what))
+                ok = False
+                continue
+            ev = json.loads(lines[idx])
+            mut(ev)
+            bad = list(lines)
+            bad[idx] = json.dumps(ev, separators=(",", ":")) + "\n"
+            cf = os.path.join(os.path.dirname(tfile), "corrupt-%s.ndjson" % what)
+            with open(cf, "w") as f:
+                f.writelines(bad)
+            r = rv.validate_trace(cf, e_["module"], e_["cfg"], "selftest-%s-%s" % (prop, what), parts=2)
+            hit = [v for v in r["viol"] if v[2] == idx + 1 and v[1] == pred]
+            print("selftest %s: corrupted `%s` at line %d -> %s" % (
+                prop, what, idx + 1, "reported: " + ", ".join(sorted({v[1] for v in r["viol"] if v[2] == idx + 1})) if hit else "NOT REPORTED"))
+            ok = ok and bool(hit)
+    print("selftest: %s" % ("PASS" if ok else "FAIL"))
+    return 0 if ok else 2
